@@ -30,6 +30,9 @@ func RunAggregationLoop(ext *extractor.Extractor, aggregator aggregation.Aggrega
 			case <-outputDone:
 				return
 			case <-time.After(100 * time.Millisecond):
+				if !liveOutput {
+					continue // snapshot, csv or no output: only the final render is ever seen
+				}
 				outputMutex.Lock()
 				writeOutput()
 				outputMutex.Unlock()
